@@ -116,6 +116,22 @@ def check_elementwise(ctx: Ctx, term: T, typer: Typer, entry: FunctionInfo, rule
     return n
 
 
+def check_einsums_in_function(ctx: Ctx, fi: FunctionInfo, typer: Typer, rule1="TEN-1", rule2="TEN-2", seen: Optional[set] = None) -> int:
+    """every einsum call site of a function (also those that only feed tests / asserts, which the result DAG does not contain)."""
+    import ast as _ast
+    from .util import fn_body_nodes
+    seen = set() if seen is None else seen
+    n = 0
+    for node in fn_body_nodes(fi):
+        if isinstance(node, _ast.Call) and isinstance(node.func, _ast.Attribute) and node.func.attr == "einsum":
+            try:
+                t = ctx.X.expr(fi, node)
+            except RecursionError:
+                continue
+            n += check_einsums(ctx, t, typer, fi, rule1, rule2, seen)
+    return n
+
+
 # ------------------------------------------------------------------------------------------------ TEN-3 masks
 def _mask_name(typer: Typer, t: T, depth: int = 0) -> Optional[str]:
     """name of the current-state mask a term is (possibly negated / cast / sliced with None)."""
